@@ -12,13 +12,9 @@
   or the heap buffer, no read of freed or indeterminate bytes, no double free) is the
   `∃ …, run … = .ok …` in the statements.
 
-  Known defect (tag `str.len.int-truncation`): `_json_object_new_string` accepts lengths that
-  `json_object_get_string_len` (an `int`) cannot report; only the strlen-based constructor can be
-  handed such a length.  `str_refines_partial` therefore carries the hypothesis that the strings
-  given to `json_object_new_string` are at most INT_MAX bytes long (`Op.Small`); the full statement
-  is `str_refines_Statement` and `str_refines_counterexample` refutes it.  The other three
-  theorems hold at full strength (a 2 GiB string makes the library report a wrong length, not
-  touch memory it does not own).
+  Both ways of giving a node a value (`_json_object_new_string`, `_json_object_set_string_len`) refuse
+  lengths `>= INT_MAX - 1`, so every value held can be reported by `json_object_get_string_len` (an
+  `int`); this bound is part of the representation invariant and all four theorems hold at full strength.
 -/
 import JsonC.Lemmas.StrStore
 
@@ -72,80 +68,77 @@ def RunSpec : Option Bytes → List Op → List Res → Option Bytes → Prop
   | v, op :: ops, r :: rs, v' => ∃ v1, OpSpec v op r v1 ∧ RunSpec v1 ops rs v'
   | _, _, _, _ => False
 
-/-- The inputs on which the known defect does not fire (`str.len.int-truncation`): a string handed to
-the strlen-based constructor is at most INT_MAX bytes long.  (Second clause: the second operand of
-the harness op `eq` is one its own `set` accepts.) -/
-def Op.Small : Op → Prop
-  | .newz obj _ => ((ByteStr.cPrefix obj).length : Int) ≤ INT_MAX
-  | .eq _ (some b') => fitsSet b'.length
-  | _ => True
-
-/-- every value held is reportable through an `int` -/
-def SmallV (v : Option Bytes) : Prop := ∀ s, v = some s → (s.length : Int) ≤ INT_MAX
-
 /-! ## str_refines -/
 
-/-- One call: whatever the model does (`Desc`) is what the specification allows, as long as the
-values involved are reportable through an `int`. -/
+/-- One call: whatever the model does (`Desc`) is what the specification allows; `hv`: the value held
+before is one a node can hold (part of the invariant, `WInv.small`). -/
 theorem desc_refines (v : Option Bytes) (op : Op) (r : Res) (v' : Option Bytes)
-    (hd : Desc v op r v') (hwf : op.WF) (hs : op.Small) (hv : SmallV v) : OpSpec v op r v' ∧ SmallV v' := by
+    (hd : Desc v op r v') (hwf : op.WF)
+    (hv : ∀ s, v = some s → (s.length : Int) < INT_MAX - strSetGuardSlack) : OpSpec v op r v' := by
   have hI : INT_MAX = (intMax : Int) := rfl
   have hIb : ByteStr.INT_MAX = (intMax : Int) := rfl
   have hZ : SIZE_MAX = (sizeMax : Int) := rfl
   obtain ⟨f1, f2, f3, f4, f5, f6, f7⟩ := hdr_facts
   obtain ⟨k1, k2⟩ := copy_facts
   have hg := set_guard_le_one
+  have hng := new_int_guard
   have specView_eq : ∀ (s : Bytes), (s.length : Int) ≤ INT_MAX → viewOf s = specView s := by
     intro s h; rw [viewOf_small s h]; rfl
   have h8 : claimSource.length ≤ intMax := by decide
   rw [claim_len] at h8
   -- constructors
-  have ctor : ∀ (val : Bytes) (ok : Bool), (val.length : Int) ≤ INT_MAX → NewDesc val val.length ok r v' →
-      CtorSpec val val.length ok r v' ∧ SmallV v' := by
-    intro val ok hval hnd
-    have hnb : ¬ bigLen val.length := by unfold bigLen; omega
-    cases ok with
-    | true =>
-      obtain ⟨hr, hv'⟩ := hnd.2 hnb rfl
-      refine ⟨Or.inl ⟨by rw [hr, specView_eq val hval], hv', ?_⟩, ?_⟩
-      · unfold ByteStr.newVerdict; rw [if_neg (by omega), if_neg (by simp)]; decide
-      · intro s hs'; rw [hv'] at hs'; injection hs' with hs'; subst hs'; exact hval
-    | false =>
-      obtain ⟨hr, hv'⟩ := hnd.1 (Or.inr rfl)
-      refine ⟨Or.inr ⟨hr, hv', ?_⟩, ?_⟩
-      · unfold ByteStr.newVerdict; rw [if_neg (by omega), if_pos rfl]; decide
-      · intro s hs'; rw [hv'] at hs'; simp at hs'
+  have ctor : ∀ (val : Bytes) (ok : Bool), NewDesc val val.length ok r v' → CtorSpec val val.length ok r v' := by
+    intro val ok hnd
+    by_cases hb : bigLen val.length
+    · obtain ⟨hr, hv'⟩ := hnd.1 (Or.inl hb)
+      refine Or.inr ⟨hr, hv', ?_⟩
+      have hge : (val.length : Int) ≥ INT_MAX - 1 := by unfold bigLen at hb; omega
+      unfold ByteStr.newVerdict
+      split
+      · decide
+      · split
+        · decide
+        · rw [if_pos (by omega)]; decide
+    · have hlt : (val.length : Int) < INT_MAX - strNewIntGuardSlack := by unfold bigLen at hb; omega
+      cases ok with
+      | true =>
+        obtain ⟨hr, hv'⟩ := hnd.2 hb rfl
+        refine Or.inl ⟨by rw [hr, specView_eq val (by omega)], hv', ?_⟩
+        unfold ByteStr.newVerdict; rw [if_neg (by omega), if_neg (by simp)]
+        split <;> decide
+      | false =>
+        obtain ⟨hr, hv'⟩ := hnd.1 (Or.inr rfl)
+        refine Or.inr ⟨hr, hv', ?_⟩
+        unfold ByteStr.newVerdict; rw [if_neg (by omega), if_pos rfl]; decide
   -- setters
   have setter : ∀ (s val : Bytes) (ok : Bool), (s.length : Int) ≤ INT_MAX → SetDesc s val val.length ok r v' →
-      SetSpec s val val.length ok r v' ∧ SmallV v' := by
+      SetSpec s val val.length ok r v' := by
     intro s val ok hsl hsd
     rcases hsd with ⟨hr, hv', hfit, _⟩ | ⟨hr, hv', hor⟩
     · unfold fitsSet at hfit
       have hval : (val.length : Int) ≤ INT_MAX := by omega
-      refine ⟨Or.inl ⟨by rw [hr, specView_eq val hval], hv', ?_⟩, ?_⟩
-      · unfold ByteStr.setVerdict; rw [if_neg (by omega)]
-        split
+      refine Or.inl ⟨by rw [hr, specView_eq val hval], hv', ?_⟩
+      unfold ByteStr.setVerdict; rw [if_neg (by omega)]
+      split
+      · decide
+      · split <;> decide
+    · refine Or.inr ⟨by rw [hr, specView_eq s hsl], hv', ?_⟩
+      unfold ByteStr.setVerdict
+      split
+      · decide
+      · split
         · decide
-        · split <;> decide
-      · intro s' hs'; rw [hv'] at hs'; have := Option.some.inj hs'; subst this; exact hval
-    · refine ⟨Or.inr ⟨by rw [hr, specView_eq s hsl], hv', ?_⟩, ?_⟩
-      · unfold ByteStr.setVerdict
-        split
-        · decide
-        · split
-          · decide
-          · rename_i hok
-            rcases hor with h | h
-            · unfold fitsSet at h; rw [if_pos (by omega)]; decide
-            · exact absurd h.1 hok
-      · intro s' hs'; rw [hv'] at hs'; injection hs' with hs'; subst hs'; exact hsl
+        · rename_i hok
+          rcases hor with h | h
+          · unfold fitsSet at h; rw [if_pos (by omega)]; decide
+          · exact absurd h.1 hok
   cases v with
   | none =>
     cases op with
-    | new obj ok => exact ctor obj ok hwf hd
+    | new obj ok => exact ctor obj ok hd
     | newn k =>
-      obtain ⟨hk1, hk2⟩ := hwf
-      rw [claim_len] at hk2
+      obtain ⟨hk1, hk2, hk3⟩ := hwf
+      rw [claim_len] at hk3
       unfold Desc at hd; unfold OpSpec; dsimp only at hd ⊢
       by_cases hneg : k < 0
       · have hbig : bigLen (toSizeT k) := by
@@ -153,34 +146,37 @@ theorem desc_refines (v : Option Bytes) (op : Op) (r : Res) (v' : Option Bytes)
           have : INT_MIN = -(intMax : Int) - 1 := rfl
           omega
         obtain ⟨hr, hv'⟩ := hd.1 (Or.inl hbig)
-        refine ⟨Or.inr ⟨hr, hv', ?_⟩, ?_⟩
-        · unfold ByteStr.newVerdict; rw [if_pos (Or.inl hneg)]; decide
-        · intro s hs'; rw [hv'] at hs'; simp at hs'
+        refine Or.inr ⟨hr, hv', ?_⟩
+        unfold ByteStr.newVerdict; rw [if_pos (Or.inl hneg)]; decide
       · have hts : toSizeT k = k.toNat := by unfold toSizeT; rw [if_neg hneg]
         rw [hts] at hd
-        have hlen : (claimSource.take k.toNat).length = k.toNat := by simp [claim_len]; omega
-        have := ctor (claimSource.take k.toNat) true (by rw [hlen]; omega) (by rw [hlen]; exact hd)
-        rw [hlen] at this
-        have hkk : ((k.toNat : Nat) : Int) = k := by omega
-        rw [hkk] at this
-        exact this
-    | newz obj ok => exact ctor (ByteStr.cPrefix obj) ok hs hd
-    | set _ _ => exact ⟨hd, by intro s hs'; rw [hd.2] at hs'; simp at hs'⟩
-    | setn _ => exact ⟨hd, by intro s hs'; rw [hd.2] at hs'; simp at hs'⟩
-    | setz _ _ => exact ⟨hd, by intro s hs'; rw [hd.2] at hs'; simp at hs'⟩
-    | get => exact ⟨hd, by intro s hs'; rw [hd.2] at hs'; simp at hs'⟩
-    | eq _ _ => exact ⟨hd, by intro s hs'; rw [hd.2] at hs'; simp at hs'⟩
-    | copy _ => exact ⟨hd, by intro s hs'; rw [hd.2] at hs'; simp at hs'⟩
-    | ser => exact ⟨hd, by intro s hs'; rw [hd.2] at hs'; simp at hs'⟩
-    | del => exact ⟨hd, by intro s hs'; rw [hd.2] at hs'; simp at hs'⟩
+        by_cases hbigk : k ≥ INT_MAX - strNewIntGuardSlack
+        · have hbig : bigLen k.toNat := by unfold bigLen; omega
+          obtain ⟨hr, hv'⟩ := hd.1 (Or.inl hbig)
+          refine Or.inr ⟨hr, hv', ?_⟩
+          unfold ByteStr.newVerdict
+          rw [if_neg (by omega), if_neg (by simp), if_pos (by omega)]; decide
+        · have hlen : (claimSource.take k.toNat).length = k.toNat := by simp [claim_len]; omega
+          have := ctor (claimSource.take k.toNat) true (by rw [hlen]; exact hd)
+          rw [hlen] at this
+          have hkk : ((k.toNat : Nat) : Int) = k := by omega
+          rw [hkk] at this
+          exact this
+    | newz obj ok => exact ctor (ByteStr.cPrefix obj) ok hd
+    | set _ _ => exact hd
+    | setn _ => exact hd
+    | setz _ _ => exact hd
+    | get => exact hd
+    | eq _ _ => exact hd
+    | copy _ => exact hd
+    | ser => exact hd
+    | del => exact hd
   | some s =>
-    have hsl : (s.length : Int) ≤ INT_MAX := hv s rfl
-    have keep : v' = some s → SmallV v' := by
-      intro h s' hs'; rw [h] at hs'; injection hs' with hs'; subst hs'; exact hsl
+    have hsl : (s.length : Int) ≤ INT_MAX := by have := hv s rfl; omega
     cases op with
-    | new _ _ => exact ⟨hd, keep hd.2⟩
-    | newn _ => exact ⟨hd, keep hd.2⟩
-    | newz _ _ => exact ⟨hd, keep hd.2⟩
+    | new _ _ => exact hd
+    | newn _ => exact hd
+    | newz _ _ => exact hd
     | set obj ok => exact setter s obj ok hsl hd
     | setn k =>
       obtain ⟨hk1, hk2, hk3⟩ := hwf
@@ -193,7 +189,7 @@ theorem desc_refines (v : Option Bytes) (op : Op) (r : Res) (v' : Option Bytes)
           omega
         rcases hd with ⟨_, _, hfit, _⟩ | ⟨hr, hv', _⟩
         · exact absurd hfit hnf
-        · refine ⟨Or.inr ⟨by rw [hr, specView_eq s hsl], hv', ?_⟩, keep hv'⟩
+        · refine Or.inr ⟨by rw [hr, specView_eq s hsl], hv', ?_⟩
           unfold ByteStr.setVerdict; rw [if_pos (Or.inl hneg)]; decide
       · have hts : toSizeT k = k.toNat := by unfold toSizeT; rw [if_neg hneg]
         rw [hts] at hd
@@ -201,7 +197,7 @@ theorem desc_refines (v : Option Bytes) (op : Op) (r : Res) (v' : Option Bytes)
         · have hnf : ¬ fitsSet k.toNat := by unfold fitsSet; omega
           rcases hd with ⟨_, _, hfit, _⟩ | ⟨hr, hv', _⟩
           · exact absurd hfit hnf
-          · refine ⟨Or.inr ⟨by rw [hr, specView_eq s hsl], hv', ?_⟩, keep hv'⟩
+          · refine Or.inr ⟨by rw [hr, specView_eq s hsl], hv', ?_⟩
             unfold ByteStr.setVerdict
             rw [if_neg (by omega), if_neg (by simp), if_pos (by omega)]; decide
         · have hlen : (claimSource.take k.toNat).length = k.toNat := by simp [claim_len]; omega
@@ -213,10 +209,10 @@ theorem desc_refines (v : Option Bytes) (op : Op) (r : Res) (v' : Option Bytes)
     | setz obj ok => exact setter s (ByteStr.cPrefix obj) ok hsl hd
     | get =>
       obtain ⟨hr, hv'⟩ := hd
-      exact ⟨⟨by rw [hr, specView_eq s hsl], hv'⟩, keep hv'⟩
+      exact ⟨by rw [hr, specView_eq s hsl], hv'⟩
     | eq a b =>
       obtain ⟨hr, hv'⟩ := hd
-      refine ⟨⟨?_, hv'⟩, keep hv'⟩
+      refine ⟨?_, hv'⟩
       intro other ho
       have : eqOther a b = other := by
         subst ho
@@ -224,15 +220,14 @@ theorem desc_refines (v : Option Bytes) (op : Op) (r : Res) (v' : Option Bytes)
         | none => rfl
         | some b' =>
           unfold eqOther; dsimp only
-          have hs' : fitsSet b'.length := hs
-          rw [if_pos hs']; rfl
+          rw [if_pos (hwf.2 b' rfl)]; rfl
       rw [← this]; exact hr
     | copy ok =>
       obtain ⟨h1, h2, hv'⟩ := hd
       have hti : toInt (s.length : Int) = ((s.length : Int), false) := toInt_small _ (by omega) hsl
       rw [hti] at h1 h2
       dsimp only at h1 h2
-      refine ⟨⟨?_, ?_, hv'⟩, keep hv'⟩
+      refine ⟨?_, ?_, hv'⟩
       · intro hok
         have := h2 (by intro hc; rcases hc with hc | hc; omega; rw [hok] at hc; simp at hc)
         rw [this]
@@ -243,88 +238,46 @@ theorem desc_refines (v : Option Bytes) (op : Op) (r : Res) (v' : Option Bytes)
         unfold ByteStr.equal ByteStr.copy
         simp
       · intro hok; exact h1 (Or.inr hok)
-    | ser => exact ⟨hd, keep hd.2⟩
-    | del => exact ⟨hd, by intro s' hs'; rw [hd.2] at hs'; simp at hs'⟩
+    | ser => exact hd
+    | del => exact hd
 
 /-- One call from any world satisfying the invariant: no fault, invariant kept, result allowed by the
 byte-string specification (the bytes read are exactly the last ones successfully stored, the length
 is their count, a NUL sits at `[len]`, equality / copy / serializer use all of them). -/
-theorem step_refines (w : World) (v : Option Bytes) (op : Op) (hw : WInv w v) (hwf : op.WF)
-    (hs : op.Small) (hv : SmallV v) :
-    ∃ w' r v', step w op = .ok (w', r) ∧ WInv w' v' ∧ OpSpec v op r v' ∧ SmallV v' := by
+theorem step_refines (w : World) (v : Option Bytes) (op : Op) (hw : WInv w v) (hwf : op.WF) :
+    ∃ w' r v', step w op = .ok (w', r) ∧ WInv w' v' ∧ OpSpec v op r v' := by
   obtain ⟨w', r, v', h1, h2, h3⟩ := step_gen w v op hw hwf
-  obtain ⟨h4, h5⟩ := desc_refines v op r v' h3 hwf hs hv
-  exact ⟨w', r, v', h1, h2, h4, h5⟩
+  exact ⟨w', r, v', h1, h2, desc_refines v op r v' h3 hwf (fun s hs => by subst hs; exact hw.small)⟩
 
-theorem run_refines (ops : List Op) : ∀ (w : World) (v : Option Bytes), WInv w v → SmallV v →
-    (∀ op ∈ ops, op.WF ∧ op.Small) →
+theorem run_refines (ops : List Op) : ∀ (w : World) (v : Option Bytes), WInv w v → (∀ op ∈ ops, op.WF) →
     ∃ w' rs v', run w ops = .ok (w', rs) ∧ WInv w' v' ∧ RunSpec v ops rs v' := by
   induction ops with
-  | nil => intro w v hw _ _; exact ⟨w, [], v, rfl, hw, rfl⟩
+  | nil => intro w v hw _; exact ⟨w, [], v, rfl, hw, rfl⟩
   | cons op ops ih =>
-    intro w v hw hv hwf
-    obtain ⟨w1, r, v1, h1, hw1, hsp, hv1⟩ := step_refines w v op hw (hwf op (by simp)).1 (hwf op (by simp)).2 hv
-    obtain ⟨w2, rs, v2, h2, hw2, hrs⟩ := ih w1 v1 hw1 hv1 (fun o ho => hwf o (by simp [ho]))
+    intro w v hw hwf
+    obtain ⟨w1, r, v1, h1, hw1, hsp⟩ := step_refines w v op hw (hwf op (by simp))
+    obtain ⟨w2, rs, v2, h2, hw2, hrs⟩ := ih w1 v1 hw1 (fun o ho => hwf o (by simp [ho]))
     refine ⟨w2, r :: rs, v2, ?_, hw2, v1, hsp, hrs⟩
     unfold run
     rw [h1]; ostep
     rw [h2]; ostep
     rfl
 
-/-- the full-strength statement of `str_refines`: every finite history of well-formed requests
-(new / set / set_len / failed set / read / equal / copy / serialize / delete) from the empty world
-runs without fault and returns what the byte-string specification allows -/
-def str_refines_Statement : Prop :=
-  ∀ ops : List Op, (∀ op ∈ ops, op.WF ∧ (∀ a b', op = .eq a (some b') → fitsSet b'.length)) →
-    ∃ w' rs v', run {} ops = .ok (w', rs) ∧ RunSpec none ops rs v'
-
-/-- C11 `str_refines`, proved part: as `str_refines_Statement`, for histories in which the
-strlen-based constructor is not handed more than INT_MAX bytes (`Op.Small`).  Missing: strings
-longer than INT_MAX created through `json_object_new_string`, for which the statement is false
-(`str_refines_counterexample`). -/
-theorem str_refines_partial (ops : List Op) (hwf : ∀ op ∈ ops, op.WF ∧ op.Small) :
+/-- C11 `str_refines`: every finite history of well-formed requests (new / set / set_len / failed set /
+read / equal / copy / serialize / delete) from the empty world runs without fault and returns what the
+byte-string specification allows: reading gives exactly the last bytes successfully stored, their
+count, a NUL behind them; a refused request leaves the value as it was. -/
+theorem str_refines (ops : List Op) (hwf : ∀ op ∈ ops, op.WF) :
     ∃ w' rs v', run {} ops = .ok (w', rs) ∧ WInv w' v' ∧ RunSpec none ops rs v' :=
-  run_refines ops {} none WInv.empty (fun _ h => by simp at h) hwf
-
-/-- The defect: `json_object_new_string` of 2^31 bytes `'A'` is served (and the node then reports the
-length -2147483648, tag `str.len.int-truncation`), whereas a length that an `int` cannot carry must
-be refused. -/
-theorem str_refines_counterexample : ¬ str_refines_Statement := by
-  intro h
-  obtain ⟨obj, hcp, hlen⟩ := exists_nulfree 2147483648
-  have hwf : ∀ op ∈ [Op.newz obj true],
-      op.WF ∧ (∀ a b', op = .eq a (some b') → fitsSet b'.length) := by
-    intro op hop
-    rw [List.mem_singleton] at hop; subst hop
-    exact ⟨trivial, fun a b' hc => by injection hc⟩
-  obtain ⟨w', rs, v', hrun, hspec⟩ := h _ hwf
-  obtain ⟨w1, rs1, v1, hrun1, _, hdesc⟩ := run_gen _ {} none WInv.empty (fun op hop => (hwf op hop).1)
-  rw [hrun1] at hrun
-  injection hrun with hrun
-  injection hrun with _ hrs
-  subst hrs
-  match rs1, hdesc, hspec with
-  | [r], ⟨v2, hd, _⟩, ⟨v3, hsp, _⟩ =>
-    unfold Desc at hd; unfold OpSpec at hsp; dsimp only at hd hsp
-    rw [hcp, hlen] at hd hsp
-    have hnb : ¬ bigLen 2147483648 := by unfold bigLen; decide
-    obtain ⟨hr, _⟩ := hd.2 hnb rfl
-    rcases hsp with ⟨_, _, hv⟩ | ⟨hr', _, _⟩
-    · apply hv
-      unfold ByteStr.newVerdict
-      rw [if_pos (Or.inr (by decide))]
-    · rw [hr] at hr'; injection hr' with hr'; cases hr'
-
-/-- the value the node reports in that situation: the `int` conversion of 2^31 -/
-theorem str_len_truncation_witness : toInt 2147483648 = (-2147483648, true) := by decide
+  run_refines ops {} none WInv.empty hwf
 
 /-! ## str_no_fault -/
 
 /-- C11 `str_no_fault`: every finite history of well-formed requests from the empty world runs
 without fault: every inline write stays inside the node's allocation, every heap write inside the
 buffer, nothing freed or indeterminate is read, no `size_t` / `ssize_t` computation leaves its
-range — for strings of every length (the `int` conversions of `json_object_get_string_len` and of
-the deep copy are modelled as written and are not faults). -/
+range (the `int` conversions of `json_object_get_string_len` and of the deep copy are modelled as
+written; they never lose a value, by `WInv.small`). -/
 theorem str_no_fault (ops : List Op) (hwf : ∀ op ∈ ops, op.WF) :
     ∃ w' rs, run {} ops = .ok (w', rs) := by
   obtain ⟨w', rs, _, h, _, _⟩ := run_gen ops {} none WInv.empty hwf
@@ -416,7 +369,7 @@ inline, grown to 20 bytes on the heap, a failing grow, shrunk in place, emptied 
 compared, copied, deleted) meets the hypotheses and is computed by the model -/
 example : (∀ op ∈ [Op.new [65, 0, 66] true, .set (List.replicate 20 67) true, .set (List.replicate 30 68) false,
       .set [69, 0] true, .get, .eq [69, 0] none, .copy true, .ser, .set [] true, .setz [70, 0, 71] true, .del],
-      op.WF ∧ op.Small) ∧
+      op.WF) ∧
     (run {} [Op.new [65, 0, 66] true, .set (List.replicate 20 67) true, .set (List.replicate 30 68) false,
       .set [69, 0] true, .get, .eq [69, 0] none, .copy true, .ser, .set [] true, .setz [70, 0, 71] true, .del]).isOk = true := by
   refine ⟨?_, by decide⟩
@@ -424,6 +377,6 @@ example : (∀ op ∈ [Op.new [65, 0, 66] true, .set (List.replicate 20 67) true
   simp only [List.mem_cons, List.mem_nil_iff, or_false] at hop
   have hI : INT_MAX = (intMax : Int) := rfl
   rcases hop with h | h | h | h | h | h | h | h | h | h | h <;> subst h <;>
-    simp [Op.WF, Op.Small, hI, intMax]
+    simp [Op.WF, hI, intMax, strNewIntGuardSlack]
 
 end JsonC.StrStore
